@@ -143,7 +143,8 @@ func (pw *prometheusWrapper) labelsToMap(labels []metrics.T) (ret map[string]str
 	}
 
 	for _, label := range labels {
-		ret[label.Name] = label.Value
+		// label values may come from requests (i.e. the prefix of a watch), and prometheus panics on invalid utf-8
+		ret[label.Name] = strings.ToValidUTF8(label.Value, "\uFFFD")
 	}
 	return
 }
